@@ -31,7 +31,36 @@ def operand(rng, w, sym, kind, x=None, kinds=("D", "F", "int")):
         e, _ = enc_amount(rng, x, kinds + ("SD",) if False else kinds)
         return e, ("n", F(x))
     e, _ = enc_amount(rng, x, kinds)
-    return Q(e, sym), ("q", stored(w, x, sym), sym)
+    return derived(rng, Q(e, sym), sym), ("q", stored(w, x, sym), sym)
+
+
+DERIVATIONS = ("neg-neg", "pos", "mul-one", "rmul-one", "div-one",
+               "convert-self", "add-zero", "sub-zero")
+
+
+def derived(rng, expr, sym, p=0.2):
+    """With probability p, the same quantity as the outcome of an operation
+    that must not change it (the properties make each of these an identity on
+    a stored quantity) instead of fresh from the constructor: operands in
+    real programs are mostly results of earlier operations."""
+    if rng.random() >= p:
+        return expr
+    k = rng.choice(DERIVATIONS)
+    if k == "neg-neg":
+        return ["un", "neg", ["un", "neg", expr]]
+    if k == "pos":
+        return ["un", "pos", expr]
+    if k == "mul-one":
+        return OP("*", expr, ["i", 1])
+    if k == "rmul-one":
+        return OP("*", ["i", 1], expr)
+    if k == "div-one":
+        return OP("/", expr, ["i", 1])
+    if k == "convert-self":
+        return ["m", expr, "convert", [U(sym)], {}]
+    if k == "add-zero":
+        return OP("+", expr, Q(["i", 0], sym))
+    return OP("-", expr, Q(["i", 0], sym))
 
 
 def describe_operand(o):
